@@ -690,8 +690,11 @@ class Interp:
                 self.raise_(IndexError, 'index out of range')
             raise Unsupported('subscript of constant %s' % type(obj).__name__)
         if isinstance(base, SeqV):
-            k = num_int(self.to_val(idx))
-            return base.seq[z3.If(k < 0, k + z3.Length(base.seq), k)]
+            # specification sequences are indexed mathematically (negative literals count from the end)
+            k = z3.simplify(num_int(self.to_val(idx)))
+            if z3.is_int_value(k) and k.as_long() < 0:
+                return base.seq[z3.Length(base.seq) + k]
+            return base.seq[k]
         if isinstance(base, MapV):
             return z3.Select(base.arr, self.to_val(idx))
         if isinstance(base, IterV):
@@ -946,7 +949,22 @@ class Interp:
         return self.call_value(f, args, kwargs, node)
 
     def call_starred(self, node):
-        raise Unsupported('call with *args/**kwargs at line %s' % getattr(node, 'lineno', '?'))
+        """f(a, b, **m): the mapping is handed to the callee's **kwargs parameter as one value"""
+        if any(isinstance(a, ast.Starred) for a in node.args):
+            raise Unsupported('call with *args at line %s' % getattr(node, 'lineno', '?'))
+        args = [self.ev(a) for a in node.args]
+        kwargs = {}
+        for k in node.keywords:
+            if k.arg is None:
+                if '**' in kwargs:
+                    raise Unsupported('several ** arguments')
+                kwargs['**'] = self.ev(k.value)
+            else:
+                kwargs[k.arg] = self.ev(k.value)
+        if isinstance(node.func, ast.Attribute):
+            recv = self.ev(node.func.value)
+            return self.call_method(recv, node.func.attr, args, kwargs, node)
+        return self.call_value(self.ev(node.func), args, kwargs, node)
 
     def call_value(self, f, args, kwargs, node=None):
         if isinstance(f, Bound):
@@ -1380,8 +1398,8 @@ class Interp:
         if len(node.args) >= 3:
             lo = num_int(self.to_val(self.ev(node.args[1])))
             hi = num_int(self.to_val(self.ev(node.args[2])))
-            for k in ks:
-                guards.append(z3.And(lo <= k, k < hi))
+            # the range bounds the first variable; further variables are bounded inside the body
+            guards.append(z3.And(lo <= ks[0], ks[0] < hi))
         g = z3.And(*guards) if guards else z3.BoolVal(True)
         if which == 'forall':
             return Val.b(z3.ForAll(ks, z3.Implies(g, body)))
@@ -1703,10 +1721,11 @@ class Interp:
         return Val.s(STR_LOWER(Val.sv(v)))
 
     def spec_ghost(self, node):
+        """scalar ghost variables are integers (counters)"""
         name = node.args[0].value
         g = self.heap.ghost
         if name not in g:
-            g[name] = z3.Const('G0_' + name, Val)
+            g[name] = Val.i(z3.Int('G0_' + name))
             self.st.heap.ghost.setdefault(name, g[name])
         return g[name]
 
